@@ -29,10 +29,14 @@ def parseEv : List String → Option Ev
   | ["tadd", n, k] => n.toNat?.map (fun f => .tadd ⟨f, k == "d"⟩)
   | ["tpop", n, k] => n.toNat?.map (fun f => .tpop ⟨f, k == "d"⟩)
   | ["sclose", n] => n.toNat?.map .streamClosed
+  | ["sigaction", n, "install"] => n.toNat?.map (.sigaction · true)
+  | ["sigaction", n, "remove"] => n.toNat?.map (.sigaction · false)
+  | ["op", "watch-listen"] => some .watchListen
+  | ["op", "watch-unlisten"] => some .watchUnlisten
   | _ => none
 
 def showSt (s : St) : String :=
-  s!"lc={s.lc} tq={s.timers.length} rq={s.runq.length} roots={s.roots} susp={s.susp.length} lis={s.lis} pipecalls={s.posted + s.postedNull + s.calls} done={if loopDone s then 1 else 0} nullstuck={s.nullStuck} tleak={s.tchanLeaked} orphan={s.orphanLis}"
+  s!"lc={s.lc} tq={s.timers.length} rq={s.runq.length} roots={s.roots} susp={s.susp.length} lis={s.lis} pipecalls={s.posted + s.postedNull + s.calls} done={if loopDone s then 1 else 0} nullstuck={s.nullStuck} tleak={s.tchanLeaked} orphan={s.orphanLis} sigh={s.sigs.length} watching={s.watching}"
 
 def stepLine (s : St) (toks : List String) : St × String :=
   match toks with
